@@ -132,8 +132,8 @@ func (m *Model) RunTokPos(s *Sink, rule string) {
 		"startLine": {tokBegins}, "startCol": {tokBegins},
 	}
 	byName := true
+	have := map[string]bool{}
 	if lexT := m.namedType("lexer", "Lexer"); lexT != nil {
-		have := map[string]bool{}
 		st := lexT.Underlying().(*types.Struct)
 		for i := 0; i < st.NumFields(); i++ {
 			have[canonFieldName(lexT, i, st.Field(i).Name())] = true
@@ -147,6 +147,8 @@ func (m *Model) RunTokPos(s *Sink, rule string) {
 	if !byName {
 		m.tokposOwnersGeneral(s, rule, readChar, tokBegins, newFn)
 		owner = map[string][]*ssa.Function{}
+	} else if !have["shouldResetCol"] {
+		delete(owner, "shouldResetCol") // an auxiliary flag: readChar may as well look at the byte it leaves
 	}
 	writers := map[string]map[*ssa.Function]string{}
 	for _, fn := range m.ModFns {
@@ -222,7 +224,7 @@ func (m *Model) RunTokPos(s *Sink, rule string) {
 			}
 		}
 		switch {
-		case v == nil && !byName && m.tokposGeometry(newTok).decided:
+		case v == nil && (!byName || !have["shouldResetCol"]) && m.tokposGeometry(newTok).decided:
 			g := m.tokposGeometry(newTok)
 			if g.bad["StartLine"] == "" && g.bad["EndLine"] == "" {
 				s.OK(rule, key, m.Pos(readChar.Pos()), "case evaluation on real lexer states over inputs with \\n, \\r\\n and \\n\\n: the line of every token start and end is the number of line feeds before it")
@@ -277,7 +279,7 @@ func (m *Model) RunTokPos(s *Sink, rule string) {
 		case len(bads) > 0:
 			s.Violation(rule, key, m.Pos(newTok.Pos()), "%s: token positions are not the line and byte column of the bytes", strings.Join(bads, "; "))
 		default:
-			s.OK(rule, key, m.Pos(newTok.Pos()), "case evaluation of New, readChar, tokenBegins and newToken on real lexer states (%d scenarios over 8 inputs, among them one that begins with a line feed and ones with \\r\\n): start = the byte at tokenBegins, end = the byte last read (the current one for EOF)", g.scenarios)
+			s.OK(rule, key, m.Pos(newTok.Pos()), "case evaluation of New, readChar, tokenBegins and newToken on real lexer states (%d scenarios over 11 inputs, among them one that begins with a line feed, ones with \\r\\n and ones with multi-byte characters): start = the byte at tokenBegins, end = the byte last read (the current one for EOF)", g.scenarios)
 		}
 	}
 	// (d) start is taken before consuming: in every function that calls newToken, every path from entry to
@@ -1058,6 +1060,9 @@ func (m *Model) tokposGeometry(fn *ssa.Function) *tokposGeom {
 		{"abc", 1, 1},
 		{"\nab", 0, 2}, // the very first byte is a line feed
 		{"\nab", 1, 1},
+		{"\xc3\xa9ab", 0, 3},        // columns count bytes: a two-byte character is two columns
+		{"a\xe2\x82\xacb\nc", 1, 4}, // a three-byte character, then a line feed
+		{"\xff\x80z", 1, 2},         // bytes that are no valid UTF-8 count like any other
 	}
 	other := tokVals[0]
 	if other == eofVal {
@@ -1136,7 +1141,7 @@ func (m *Model) newTokenGeometry(s *Sink, rule string, fn *ssa.Function) bool {
 		if g.bad[f] != "" {
 			s.Violation(rule, key, m.Pos(fn.Pos()), "%s: the token's range is not that of its text, so errors about it name a wrong line and a cursor on it is not found", g.bad[f])
 		} else {
-			s.OK(rule, key, m.Pos(fn.Pos()), "case evaluation of New, readChar, tokenBegins and newToken on real lexer states (%d scenarios over 8 inputs, every token type on the one whose six line and column numbers differ): start = the byte at tokenBegins, end = the byte last read (the current one for EOF%s); a carriage return does not start a line", g.scenarios, map[bool]string{true: " and for a token that has read nothing", false: ""}[g.unreadAtStart])
+			s.OK(rule, key, m.Pos(fn.Pos()), "case evaluation of New, readChar, tokenBegins and newToken on real lexer states (%d scenarios over 11 inputs, every token type on the one whose six line and column numbers differ): start = the byte at tokenBegins, end = the byte last read (the current one for EOF%s); a carriage return does not start a line", g.scenarios, map[bool]string{true: " and for a token that has read nothing", false: ""}[g.unreadAtStart])
 		}
 	}
 	return true
